@@ -7,6 +7,7 @@ import (
 	"crypto/rand"
 	"encoding/binary"
 	"fmt"
+	"github.com/LemoFoundationLtd/lemochain-core/chain/params"
 	"github.com/LemoFoundationLtd/lemochain-core/common"
 	"github.com/LemoFoundationLtd/lemochain-core/common/crypto"
 	"github.com/LemoFoundationLtd/lemochain-core/common/crypto/ecies"
@@ -238,7 +239,8 @@ func readHandshakeBuf(conn io.ReadWriter, prv *ecdsa.PrivateKey) ([]byte, error)
 		return nil, err
 	}
 	length := binary.BigEndian.Uint32(buf)
-	if length == 0 || length > uint32(PackageMaxLen) {
+	// same bound as every later frame (readConn): the buffer is allocated before any payload byte arrives
+	if length == 0 || length > params.MaxPackageLength {
 		return nil, ErrUnavailablePackage
 	}
 	// content
